@@ -783,6 +783,73 @@ def t_store(rng: random.Random, u: str, hostile: bool = False) -> Unit:
     return {"src": "\n".join(src), "calls": calls, "tags": ["store." + variant, "store.type:" + ann], "kind": "store:" + variant, "classes": {f"{u}H": ["v"]}}
 
 
+def t_genproto(rng: random.Random, u: str, hostile: bool = False) -> Unit:
+    """Generator protocol through a delegating generator (PEP 380): close / throw / send / abandon while the outer
+    generator is suspended in `yield from`; sub-generators that swallow GeneratorExit, iterators with close() but no throw()."""
+    src = [f"def {u}_sub(log: list[str], mode: int) -> Generator[object, Optional[int], str]:", "    try:", "        got = yield 1",
+           "        log.append('sub got ' + str(got))", "        yield 2", "    except GeneratorExit:", "        log.append('sub exit')",
+           "        if mode == 1:", "            return 'swallowed'", "        raise", "    except ValueError as e:",
+           "        log.append('sub VE ' + str(e))", "        yield 3", "    finally:", "        log.append('sub finally')", "    return 'sub done'", "",
+           f"class {u}It:", "    def __init__(self, log: list[str]) -> None:", "        self.log = log", "        self.n = 0", "",
+           f"    def __iter__(self) -> '{u}It':", "        return self", "", "    def __next__(self) -> object:", "        self.n += 1",
+           "        if self.n > 3:", "            raise StopIteration", "        return self.n * 10", "", "    def close(self) -> None:",
+           "        self.log.append('It.close')", "",
+           f"def {u}_outer(log: list[str], mode: int) -> Generator[object, Optional[int], str]:", "    r = '?'", "    try:", "        if mode == 2:",
+           f"            yield from {u}It(log)", "            r = 'it'", "        else:", f"            r = yield from {u}_sub(log, mode)",
+           "        log.append('outer after: ' + r)", "        yield 99", "    finally:", "        log.append('outer finally')", "    return r", "",
+           f"def {u}_drive(mode: int, action: int) -> list[str]:", "    log: list[str] = []", f"    g = {u}_outer(log, mode)", "    try:",
+           "        log.append('next ' + str(next(g)))", "        if action == 0:", "            g.close()", "            log.append('closed')",
+           "        elif action == 1:", "            log.append('throw -> ' + str(g.throw(ValueError('boom'))))", "            g.close()",
+           "        elif action == 2:", "            log.append('send -> ' + str(g.send(5)))", "            g.close()",
+           "        elif action == 3:", "            log.append('next2 ' + str(next(g)))", "            log.append('rest ' + str(list(g)))",
+           "        else:", "            log.append('send -> ' + str(g.send(7)))", "            log.append('send2 -> ' + str(g.send(8)))",
+           "            log.append('rest ' + str(list(g)))",
+           "    except BaseException as e:", "        log.append('exc ' + type(e).__name__ + ' ' + str(e))", "    return log", ""]
+    calls = [{"setup": [], "call": f"{u}_drive({m}, {a})", "post": []} for m in (0, 1, 2) for a in (0, 1, 2, 3, 4)]
+    return {"src": "\n".join(src), "calls": calls, "tags": ["generator.protocol"], "kind": "generator:protocol", "classes": {f"{u}It": ["n"]}}
+
+
+def t_deepdefaults(rng: random.Random, u: str, hostile: bool = False) -> Unit:
+    """Class-level attribute defaults inherited through a hierarchy of depth 4 in which some levels declare none."""
+    tys = [rng.choice(["int", "str", "list[int]", "float", "Optional[int]", "tuple[int, str]"]) for _ in range(4)]
+    v = [lit(t, rng, True) for t in tys]
+    A, B, C, D, E = (f"{u}{x}" for x in "ABCDE")
+    src = [f"class {A}:", f"    a0: {tys[0]} = {v[0]}", f"    a1: {tys[1]} = {v[1]}", "    def __init__(self, k: int) -> None:", "        self.k = k", "",
+           f"class {B}({A}):", "    def twice(self) -> int:", "        return self.k * 2", "",
+           f"class {C}({B}):", f"    c0: {tys[2]} = {v[2]}", "",
+           f"class {D}({C}):", "    def thrice(self) -> int:", "        return self.k * 3", "",
+           f"class {E}({D}):", f"    e0: {tys[3]} = {v[3]}", f"    a1: {tys[1]} = {lit(tys[1], rng, True)}", "",
+           f"def {u}_show(o: {A}) -> str:", "    return str(o.a0) + '|' + str(o.a1) + '|' + str(o.k)", "",
+           f"def {u}_f(which: int, k: int) -> str:", f"    o: {A}", "    if which == 0:", f"        o = {A}(k)", "    elif which == 1:", f"        o = {B}(k)",
+           "    elif which == 2:", f"        o = {C}(k)", "    elif which == 3:", f"        o = {D}(k)", "    else:", f"        o = {E}(k)",
+           f"    r = {u}_show(o)", f"    if isinstance(o, {C}):", "        r += '|c0=' + str(o.c0)", f"    if isinstance(o, {E}):", "        r += '|e0=' + str(o.e0)",
+           "    return r", ""]
+    calls = [{"setup": [], "call": f"{u}_f({w}, {rng.choice([0, 3, 2**40])})", "post": []} for w in range(5)]
+    calls += [{"setup": [f"o = {X}(1)"], "call": "(o.a0, o.a1, o.k)", "post": []} for X in (C, E)]
+    return {"src": "\n".join(src), "calls": calls, "tags": ["class.inherited-defaults-depth4"], "kind": "class:deep-defaults",
+            "classes": {A: ["k"], B: ["k"], C: ["k"], D: ["k"], E: ["k"]}}
+
+
+def t_delrebind(rng: random.Random, u: str, hostile: bool = False) -> Unit:
+    """A local that is deleted and conditionally re-bound between two calls that may raise (two error edges that release
+    the same registers, the local definitely assigned on the first and only maybe assigned on the second)."""
+    t = rng.choice(["str", "list[int]", "Pt", "Optional[int]", "tuple[int, str]", "dict[str, int]", "object"])
+    v = lit(t, rng, True) if t != "object" else "object()"
+    src = [f"def {u}_chk(n: int) -> int:", "    if n > 2:", "        raise ValueError('n=' + str(n))", "    return n", "",
+           f"def {u}_f(a: bool, n: int) -> str:", f"    x: {t} = {v}", f"    r = {u}_chk(0)", "    s = str(type(x).__name__)", "    del x", "    if a:",
+           f"        x = {v}", f"    r += {u}_chk(n)", "    return s + str(type(x).__name__) + str(r)", "",
+           f"def {u}_g(a: bool, n: int) -> str:", "    try:", f"        return {u}_f(a, n)", "    except ValueError as e:", "        return 'VE ' + str(e)",
+           "    except UnboundLocalError:", "        return 'unbound'", ""]
+    calls = [{"setup": [], "call": f"{u}_{fn}({a}, {n})", "post": []} for fn in ("f", "g") for a in ("True", "False") for n in (0, 3)]
+    for c in calls:
+        c["uninit"] = True
+    return {"src": "\n".join(src), "calls": calls, "tags": ["uninit.del-rebind-between-raising-calls"], "kind": "uninit:del-rebind"}
+
+
+# units every program contains once (directed at mechanisms a random draw rarely composes)
+DIRECTED: list[Callable[..., Unit]] = [t_genproto, t_deepdefaults, t_delrebind]
+
+
 TEMPLATES: list[tuple[Callable[..., Unit], float]] = [
     (t_prim, 9.0), (t_stmt, 3.0), (t_loop, 4.0), (t_range_grid, 2.5), (t_callshape, 2.0), (t_pycall, 0.7), (t_class, 2.0), (t_dunder, 0.5), (t_generator, 2.0),
     (t_closure, 1.5), (t_exc, 2.0), (t_uninit, 2.0), (t_narrow, 2.0), (t_store, 1.5),
